@@ -21,7 +21,8 @@ RULE = ('explicit-state breadth-first search over the real MemoryStore object: n
         'allocator) and a 3-state StoreManager product to a depth bound. After every transition every live index is read back and '
         'compared with the model. Non-trivial = distinct reachable states with at least two live indices.')
 DEEP_PROBES = ('far indices {0,9} and {17,130} (+300 thorough), one live slot at every index up to 1 700 (5 000), the index allocator under churn (163 840 / 1 064 960 allocations), 0.0 vs -0.0, same-size temporary map keys')
-ASSUMPTIONS = ['operations are issued where the operators issue them: read/write/delete only on added keys',
+ASSUMPTIONS = ['operations are issued where the operators issue them: read/write/delete only on added keys; add_key also on a key that is live ("repeated indices": the slot reads fresh again, which split and the window operators rely on)',
+               'the order in which iterate_map / iterate enumerate is not compared (the order of groups is C04\'s subject)',
                'value alphabets of 2-3 values per type; indices {0,1,3} (plus 6 in thorough)']
 LEVEL_TEXT = ('Explicit-state model checking with state hashing of the real store object against a dictionary model; finite index '
               'and value alphabets make the reachable set of the typed stores finite, so the search reaches a fixpoint and the '
@@ -31,6 +32,11 @@ LEVEL_NOTE = ('Trusted: the dictionary model and the canonical form (asserted to
 TECHNIQUE = 'explicit-state BFS with state hashing over the real MemoryStore against a dictionary model (fixpoint for typed stores)'
 
 NOTSET = rs.state.markers.STATE_NOTSET
+
+
+def is_notset(x):
+    """The 'not set' marker, also after the store that holds it went through copy.deepcopy (the BFS copies stores)."""
+    return x is NOTSET or type(x) is type(NOTSET)
 NS = '<model: not set>'          # model-side sentinel (survives deepcopy, unlike the marker object)
 
 TYPES = {
@@ -88,7 +94,10 @@ def canon_store(s):
     """Canonical form = EVERY data field of the object (generic over vars(), so a refactoring that adds or renames a
     field is automatically part of the state identity: merging stays sound without the check having to know the fields)."""
     out = []
-    d = vars(s)
+    try:
+        d = vars(s)
+    except TypeError:                      # a class with __slots__
+        d = {k: getattr(s, k) for c in type(s).__mro__ for k in getattr(c, '__slots__', ()) if hasattr(s, k)}
     for k in sorted(d):
         v = d[k]
         if callable(v):
@@ -120,17 +129,17 @@ def read_all(unit, store, model, problems, what):
             continue
         want = m['value']
         try:            # the two status reads of the store, where it offers them
-            if hasattr(store, 'is_set') and bool(store.is_set(keyof(i))) != (want is not NS):
+            if hasattr(store, 'is_set') and not unit.get('default') and bool(store.is_set(keyof(i))) != (want is not NS):
                 problems.append(('is_set-disagrees-with-what-the-slot-reads', what, i, repr(store.is_set(keyof(i)))))
             if hasattr(store, 'is_cleared') and store.is_cleared(keyof(i)):
                 problems.append(('live-slot-reported-as-cleared', what, i))
         except Exception as e:
             problems.append(('is_set-or-is_cleared-raises', what, i, repr(e)))
         if want is NS:
-            if got is not NOTSET:
+            if not is_notset(got):
                 problems.append(('fresh-slot-not-reading-notset', what, i, repr(got)))
         else:
-            if got is NOTSET or got != want or (isinstance(want, float) and repr(float(got)) != repr(want)):
+            if is_notset(got) or got != want or (isinstance(want, float) and repr(float(got)) != repr(want)):
                 problems.append(('read-differs-from-last-write', what, i, repr(got), repr(want)))
             elif dt in (int, float, bool) and type(got) is not dt:
                 problems.append(('read-has-wrong-type', what, i, repr(got)))
@@ -294,7 +303,7 @@ def apply_mapper(unit, store, model, op):
             store.add_key(k)
             live[i] = {}
         elif op[0] == 'add_map':
-            if store.get_map(k, _mk(op[2])) is not NOTSET:
+            if not is_notset(store.get_map(k, _mk(op[2]))):
                 problems.append(('get_map-finds-unmapped-key', i, op[2]))
             idx = store.add_map(k, _mk(op[2]))
             in_use = set(v for m in live.values() for v in m.values())
@@ -312,20 +321,20 @@ def apply_mapper(unit, store, model, op):
         return problems
     for j, m in live.items():
         try:
-            got = list(store.iterate_map(keyof(j)))
-            want = [_mk(n) for n in m]
+            got = sorted(store.iterate_map(keyof(j)), key=repr)        # exactly the mapped keys, once each; their order is C04's subject
+            want = sorted((_mk(n) for n in m), key=repr)
             if got != want:
                 problems.append(('iterate_map-differs-from-mapped-keys', j, repr(got), repr(want)))
             for n, idx in m.items():
                 r = store.get_map(keyof(j), _mk(n))
-                if r is NOTSET or r != idx:
+                if is_notset(r) or r != idx:
                     problems.append(('get_map-differs-from-add_map', j, n, repr(r), idx))
                 # an unmapped key looked up right after a mapped one (temporaries of the same size)
                 for u in NAMES:
-                    if u not in m and store.get_map(keyof(j), _mk(u)) is not NOTSET:
+                    if u not in m and not is_notset(store.get_map(keyof(j), _mk(u))):
                         problems.append(('get_map-finds-unmapped-key', j, u))
             for n in NAMES:
-                if n not in m and store.get_map(keyof(j), _mk(n)) is not NOTSET:
+                if n not in m and not is_notset(store.get_map(keyof(j), _mk(n))):
                     problems.append(('get_map-finds-unmapped-key', j, n))
         except Exception as e:
             problems.append(('read-raises', j, repr(e)))
@@ -388,7 +397,7 @@ def apply_manager(unit, sm, model, op):
             del model[st][i]
         elif op[0] == 'complete':
             mks = list(sm.iterate_map(st, k))
-            if mks != list(model[st][i]):
+            if sorted(mks, key=repr) != sorted(model[st][i], key=repr):
                 problems.append(('manager-iterate_map-differs', i, repr(mks)))
             for mk in mks:
                 if sm.get_map(st, k, mk) != model[st][i][mk]:
@@ -408,16 +417,16 @@ def apply_manager(unit, sm, model, op):
             problems.append(('manager-iterate_state-raises', s, repr(e)))
         for j, v in model[s].items():
             got = sm.get_state(s, (j,))
-            if (v is NS) != (got is NOTSET) or (v is not NS and got != v):
+            if (v is NS) != is_notset(got) or (v is not NS and got != v):
                 problems.append(('state-%d-disturbed-by-operation-on-state-%d' % (s, st), j, repr(got), repr(v)))
     for j, m in model[2].items():
         for n, idx in m.items():
             if sm.get_map(2, (j,), n) != idx:
                 problems.append(('mapper-state-disturbed', j))
-        if 'a' not in m and sm.get_map(2, (j,), 'a') is not NOTSET:
+        if 'a' not in m and not is_notset(sm.get_map(2, (j,), 'a')):
             problems.append(('name-that-is-not-mapped-reads-as-mapped', j, repr(sm.get_map(2, (j,), 'a'))))
         try:
-            if list(sm.iterate_map(2, (j,))) != list(m):
+            if sorted(sm.iterate_map(2, (j,)), key=repr) != sorted(m, key=repr):
                 problems.append(('manager-iterate_map-differs', j, repr(list(sm.iterate_map(2, (j,))))))
         except Exception as e:
             problems.append(('manager-iterate_map-raises', j, repr(e)))
@@ -434,7 +443,7 @@ def run_sweep(unit, acc):
             try:
                 s.add_key((i,))
                 got = s.get((i,))
-                if (dflt is None and got is not NOTSET) or (dflt is not None and got != dflt):
+                if (dflt is None and not is_notset(got)) or (dflt is not None and got != dflt):
                     problems.append(('fresh-slot-not-reading-notset', i, repr(got)))
                 s.set((i,), True if dt is bool else 7)
                 if i > 0:
